@@ -16,7 +16,13 @@ _LOOP_FULL = dict(_ARITH_FULL)
 _LOOP_FULL.update({m: {"shims": ()} for m in ("xdsl.transforms.scf_for_loop_unroll", "xdsl.transforms.scf_for_loop_flatten", "xdsl.transforms.scf_for_loop_range_folding",
                                               "xdsl.transforms.convert_scf_to_cf", "xdsl.transforms.loop_invariant_code_motion", "xdsl.transforms.control_flow_hoist")})
 
+_RV_FULL = dict(_ARITH_FULL)
+_RV_FULL.update({m: {"shims": ("struct",)} for m in ("xdsl.transforms.canonicalization_patterns.riscv", "xdsl.dialects.riscv.ops", "xdsl.dialects.riscv.abstract_ops",
+                                                     "xdsl.dialects.rv32", "xdsl.dialects.rv64", "xdsl.dialects.riscv.attrs", "xdsl.backend.riscv.lowering.convert_arith_to_riscv",
+                                                     "xdsl.backend.riscv.lowering.utils", "xdsl.dialects.riscv.assembly")})
+
 CHECKS = {
+    "C22": {"module": "vx.checks.c22", "instrument": {"full": _RV_FULL}, "maxtasksperchild": 6},
     "C28": {"module": "vx.checks.c28", "instrument": {}, "maxtasksperchild": 10},
     "C16": {"module": "vx.checks.c16", "instrument": {"full": _LOOP_FULL}, "maxtasksperchild": 4},
     "C13": {"module": "vx.checks.c13", "instrument": {}},
